@@ -521,7 +521,7 @@ class Interp:
         if t.startswith('b"'):
             data = _unescape(t[2:-1])
             return Ref([Agg('array', None, [Sc('u8', ord(ch) & 255) for ch in data])], 0)
-        m = re.match(r'^(u8|u16|u32|u64|u128|usize|i8|i16|i32|i64|i128|isize)::(MAX|MIN)$', t)
+        m = re.match(r'^(?:core::num::<impl )?(u8|u16|u32|u64|u128|usize|i8|i16|i32|i64|i128|isize)>?::(MAX|MIN)$', t)
         if m:
             w = INT_W[m.group(1)]
             if m.group(1) in SIGNED:
@@ -1144,6 +1144,10 @@ class Interp:
                 inner = strip_ref(ty)
                 if not inner.startswith('['):
                     return Ref(a.buf, a.start)
+            if kind == 'PtrToPtr' and type(a) is Ref and strip_ref(ty) == 'u8' and isinstance(a.key, int):
+                tgt = a.cont[a.key] if a.key < len(a.cont) else None
+                if tgt is None or (type(tgt) is Sc and tgt.t in ('u64', 'i64', 'f64')):
+                    return BytePtr(a.cont, a.key)
             return a
         if kind in ('PointerExposeProvenance', 'PointerExposeAddress'):
             raise Unsupported('pointer to integer cast')
